@@ -507,6 +507,8 @@ def run_case(cfg):
                            "got_max": (a.detach().abs().max().item() if a is not None and a.numel() else 0.0)},
                           leaf=nm, stage="first"))
     obs["r1"] = _bucket(worst1)
+    # what was actually observed (keeps distinct executions distinct in the evidence count)
+    obs["g1max"] = [rnd(float(a.detach().abs().max()), 4) if (a is not None and a.numel()) else None for a in g1]
     status = "ok"
 
     if cfg["order"] == "2" and not viol:
